@@ -409,6 +409,7 @@ func runHistory(cfg histCfg, ch *env.Chooser) *histObs {
 				CipherSuites: histPrefs(cfg),
 			})
 		})
+		w.quiesce()
 		o.HandshakeExchanges = len(w.T.Log)
 		w.T.Menu = nil
 		if p != "" || err != nil {
@@ -504,6 +505,7 @@ func runHistory(cfg histCfg, ch *env.Chooser) *histObs {
 				r.Rsp = canonNamed(reflect.ValueOf(rsp))
 			}
 		}
+		w.quiesce()
 		r.Last = len(w.T.Log)
 		// horizon bookkeeping: exchanges beyond the menu horizon were honest
 		for k := r.First + len(r.Answers); k < r.Last; k++ {
